@@ -143,7 +143,7 @@ def shape(sc):
                 s += "{" + f(a[1]) + "}"
             else:
                 s += {"join": "j", "release": "r", "stop": "s", "wait_stop": "w", "raise": "!", "ret": ".", "join_all": "J", "main_stop": "M",
-                      "join_node": "n"}[a[0]]
+                      "join_node": "n", "timed": "t"}[a[0]]
         return s
     return f(sc["main"])
 
@@ -437,6 +437,14 @@ def run_scenario(sc, chooser=None, seed=0, max_steps=30000):
             do_stop(nid, kids[a[1]], a)
         elif a[0] == "wait_stop":
             (please_stop | till.Till(seconds=0.3)).wait()
+        elif a[0] == "timed":
+            # something that needs the timers after the thread was asked to stop (flushing with a deadline, a retry pause)
+            t0 = sched.clock
+            till.Till(seconds=a[1]).wait()
+            if sched.clock - t0 < a[1] - 1e-9:
+                st["viol"].append("C11: thread n%d was registered under the main thread before MainThread.stop() took its children, "
+                                  "but the timers were shut down while it was still running (a Till of %.2f s came true after %.2f s)"
+                                  % (nid, a[1], sched.clock - t0))
         elif a[0] == "raise":
             st["outcome"][nid] = ("fail", None)
             st["targets_done"] += 1
@@ -472,6 +480,8 @@ def run_scenario(sc, chooser=None, seed=0, max_steps=30000):
         elif a[0] == "main_stop":
             main = threads.MAIN_THREAD
             sched.note("call", 0, "main_stop")
+            if sc.get("hook"):
+                main.please_stop.then(lambda: spawn(sc["hook"], 0))
             try:
                 main.stop()
                 st["main_stop"] = "ok"
